@@ -327,6 +327,17 @@ package ge25519
 // ---------------- scalar multiplications ----------------
 
 // group laws on multiples of the base point  [M2]
+// linear combinations a*Q + b*B  [M2: abelian group]
+//@ axiom LCADD [M2]: allS(Q, Pt, all(a, all(b, all(c, all(d, padd(lc2(Q, a, b), lc2(Q, c, d)) == lc2(Q, a + c, b + d))))))
+//@ axiom LCSUB [M2]: allS(Q, Pt, all(a, all(b, all(c, all(d, psub(lc2(Q, a, b), lc2(Q, c, d)) == lc2(Q, a - c, b - d))))))
+//@ axiom LCDBL [M2]: allS(Q, Pt, all(a, all(b, pdbl(lc2(Q, a, b)) == lc2(Q, 2 * a, 2 * b))))
+//@ axiom LCADDB [M2]: allS(Q, Pt, all(a, all(b, all(k, padd(lc2(Q, a, b), mulB(k)) == lc2(Q, a, b + k)))))
+//@ axiom LCSUBB [M2]: allS(Q, Pt, all(a, all(b, all(k, psub(lc2(Q, a, b), mulB(k)) == lc2(Q, a, b - k)))))
+//@ axiom GLC [M2]: allS(Q, Pt, all(a, all(b, all(c, all(d, padd(lc2(Q, a, b), lc2(Q, c, d)) == lc2(Q, a + c, b + d))))))
+//@ axiom LCONE [M2]: allS(Q, Pt, Q == lc2(Q, 1, 0))
+//@ axiom LCZERO [M2]: allS(Q, Pt, pt3(0, 1, 1) == lc2(Q, 0, 0))
+//@ ufun hv1(Int) Int
+//@ ufun hv2(Int) Int
 //@ axiom GADD [M2]: all(a, all(b, padd(mulB(a), mulB(b)) == mulB(a + b)))
 //@ axiom GDBL [M2]: all(a, pdbl(mulB(a)) == mulB(2 * a))
 // multiplying the t component of (y-x, y+x, 2xy) by d gives the form (y-x, y+x, 2dxy) of the same point  [bridge]
@@ -348,11 +359,20 @@ package ge25519
 // (it rests on the assumed digit property of ContractSlidingWindow and on a Horner invariant
 // over a data-dependent loop that is not discharged).
 //@ func DoubleScalarmultVartime(r, p1, s1, s2)
+//@   uses ground_tables, GLC, LCADD, LCSUB, LCDBL, LCADDB, LCSUBB, LCONE, LCZERO
 //@   requires red4(*p1) && tvalid(*p1) && canon(*s1) && canon(*s2)
 //@   modifies *r
+// hv1(i), hv2(i): value of the digits above position i (Horner form), ghost functions defined by
+// the recursion below; that the recursion sums to the weighted digit sum is Horner's rule [HORNER]
+//@   lemma after call Double#1 : P3(*p1) == lc2(P3(*p1), 1, 0)
+//@   lemma at loop#2 : red3(*r) ;; assume hv1(255) == 0 && hv2(255) == 0 && forallq(k, 0, 256, hv1(k-1) == 2 * hv1(k) + slide1[k] && hv2(k-1) == 2 * hv2(k) + slide2[k]) && hv1(0-1) == sum(k, 0, 256, slide1[k] * pow2(k)) && hv2(0-1) == sum(k, 0, 256, slide2[k] * pow2(k))
 //@   loop#2 modifies i
-//@   loop#2 invariant -1 <= i && i <= 255
+//@   loop#2 invariant -1 <= i && i <= 255 && hv1(i) == 0 && hv2(i) == 0
 //@   loop#3 modifies i, *r, t
-//@   loop#3 invariant -1 <= i && i <= 255 && red3(*r)
+//@   loop#3 invariant -1 <= i && i <= 255 && red3(*r) && P3(*r) == lc2(P3(*p1), hv1(i), hv2(i))
+//@   split before call p1p1ToFull#1 : slide1[i] < 0
+//@   split before call p1p1ToFull#2 : slide2[i] < 0
+//@   lemma before call pnielsAddP1P1Vartime#1 : bycases(ite(slide1[i] < 0, 0 - slide1[i], slide1[i]) / 2, 0, 8, okpn(pre1[ite(slide1[i] < 0, 0 - slide1[i], slide1[i]) / 2]) && PPN(pre1[ite(slide1[i] < 0, 0 - slide1[i], slide1[i]) / 2]) == lc2(P3(*p1), 2 * (ite(slide1[i] < 0, 0 - slide1[i], slide1[i]) / 2) + 1, 0))
+//@   lemma before call nielsAdd2P1p1Vartime#1 : bycases(ite(slide2[i] < 0, 0 - slide2[i], slide2[i]) / 2, 0, 32, rednb(nielsSlidingMultiples[ite(slide2[i] < 0, 0 - slide2[i], slide2[i]) / 2]) && PN(nielsSlidingMultiples[ite(slide2[i] < 0, 0 - slide2[i], slide2[i]) / 2]) == mulB(2 * (ite(slide2[i] < 0, 0 - slide2[i], slide2[i]) / 2) + 1))
 //@   ensures red3(*r)
-//@   assume-ensures (sval(*s1) < 1<<253 && sval(*s2) < 1<<253) ==> P3(*r) == lc2(P3(*p1), sval(*s1), sval(*s2))
+//@   ensures (sval(*s1) < 1<<253 && sval(*s2) < 1<<253) ==> P3(*r) == lc2(P3(*p1), sval(*s1), sval(*s2))
